@@ -186,6 +186,29 @@ class ReverseLookup:
 
 def as_reverse_lookup(fn: FunctionInfo) -> Optional[ReverseLookup]:
     loops = [n for n in A.walk_no_nested(fn.node) if isinstance(n, ast.For)]
+    if not loops:
+        # the same as one expression: return next((k for k, v in table.items() if v == value), default)
+        body = A.body_without_docstring(fn.node)
+        if len(body) == 1 and isinstance(body[0], ast.Return) and isinstance(body[0].value, ast.Call) and isinstance(body[0].value.func, ast.Name) and body[0].value.func.id == "next" and body[0].value.args:
+            ge = body[0].value.args[0]
+            if isinstance(ge, ast.GeneratorExp) and len(ge.generators) == 1 and len(ge.generators[0].ifs) == 1:
+                g = ge.generators[0]
+                it = g.iter
+                if isinstance(it, ast.Call) and isinstance(it.func, ast.Attribute) and it.func.attr == "items" and not it.args and isinstance(g.target, ast.Tuple) and len(g.target.elts) == 2 and all(isinstance(e, ast.Name) for e in g.target.elts):
+                    kv, vv = g.target.elts[0].id, g.target.elts[1].id  # type: ignore[attr-defined]
+                    if isinstance(ge.elt, ast.Name) and ge.elt.id == kv:
+                        params = [a.arg for a in fn.node.args.args]  # type: ignore[attr-defined]
+                        if fn.cls is not None and params and params[0] in ("self", "cls"):
+                            params = params[1:]
+                        table = it.func.value
+                        tpi = params.index(table.id) if isinstance(table, ast.Name) and table.id in params else None
+                        used = {n.id for n in ast.walk(g.ifs[0]) if isinstance(n, ast.Name)}
+                        vpi = next((i for i, p in enumerate(params) if p in used and i != tpi), None)
+                        if vv in used:
+                            pseudo_if = ast.copy_location(ast.If(test=g.ifs[0], body=[ast.Return(value=ge.elt)], orelse=[]), ge)
+                            pseudo_for = ast.copy_location(ast.For(target=g.target, iter=it, body=[pseudo_if], orelse=[]), ge)
+                            return ReverseLookup(fn, pseudo_for, pseudo_if, table, kv, vv, tpi, vpi)
+        return None
     if len(loops) != 1:
         return None
     lp = loops[0]
